@@ -57,20 +57,21 @@ type c11Frame struct {
 }
 
 type c11Interp struct {
-	pkgs     []*packages.Package             // packages whose functions may be inlined
-	inline   func(fn *types.Func) bool       // policy; default: unexported functions of pkgs
-	oracle   func(st *c11St, v *c11V) c11Tri // optional decision of atoms from an abstract input
-	onStmt   func(fr *c11Frame, st *c11St, s ast.Stmt)
-	onLoop   func(fr *c11Frame, st *c11St, loop ast.Stmt, phase string) // "init" (after Init/X, before the fresh symbols), "head" (after them)
-	maxPaths int
-	npaths   int
-	overflow bool
-	nid      int
-	done     []c11Out // paths that ended at a loop back edge (ctl c11Back) or in a panic
-	funcs    map[*types.Func]*FuncInfo
-	litInfo  map[*ast.FuncLit]*c11Frame // the frame a function literal was created in
-	concrete bool                       // finite-domain mode: lists are computed, loops are unrolled (c11_list.go)
-	initHeap map[int]*c11Obj            // struct values of the concrete input
+	pkgs        []*packages.Package             // packages whose functions may be inlined
+	inline      func(fn *types.Func) bool       // policy; default: unexported functions of pkgs
+	oracle      func(st *c11St, v *c11V) c11Tri // optional decision of atoms from an abstract input
+	onStmt      func(fr *c11Frame, st *c11St, s ast.Stmt)
+	onLoop      func(fr *c11Frame, st *c11St, loop ast.Stmt, phase string) // "init" (after Init/X, before the fresh symbols), "head" (after them)
+	maxPaths    int
+	npaths      int
+	overflow    bool
+	nid         int
+	done        []c11Out // paths that ended at a loop back edge (ctl c11Back) or in a panic
+	funcs       map[*types.Func]*FuncInfo
+	litInfo     map[*ast.FuncLit]*c11Frame // the frame a function literal was created in
+	recordIndex bool                       // record slice index reads as "index" events
+	concrete    bool                       // finite-domain mode: lists are computed, loops are unrolled (c11_list.go)
+	initHeap    map[int]*c11Obj            // struct values of the concrete input
 }
 
 func c11NewInterp(pkgs ...*packages.Package) *c11Interp {
@@ -159,6 +160,13 @@ func (it *c11Interp) eval(fr *c11Frame, st *c11St, e ast.Expr) []c11SV {
 			return one(it.unk(st, "instantiation"))
 		}
 		return it.evalN(fr, st, []ast.Expr{x.X, x.Index}, func(s *c11St, vs []*c11V) *c11V {
+			if it.recordIndex {
+				if t := info.TypeOf(x.X); t != nil {
+					if _, isSlice := t.Underlying().(*types.Slice); isSlice {
+						s.ev = append(s.ev, c11Ev{kind: "index", lhs: vs[0], x: vs[1], t: t, node: x, nas: len(s.as), fr: fr.path})
+					}
+				}
+			}
 			if v, ok := it.listIndex(s, vs[0], vs[1]); ok {
 				return v
 			}
@@ -483,6 +491,9 @@ func (it *c11Interp) evalCall(fr *c11Frame, st *c11St, call *ast.CallExpr) []c11
 			}
 			if bn == "append" {
 				v.typ = info.TypeOf(call)
+				s.ev = append(s.ev, c11Ev{kind: "call", call: v, node: call, nas: len(s.as), fr: fr.path})
+			}
+			if bn == "delete" || bn == "clear" {
 				s.ev = append(s.ev, c11Ev{kind: "call", call: v, node: call, nas: len(s.as), fr: fr.path})
 			}
 			return v
